@@ -81,23 +81,30 @@ func Clean(m *testing.M, opts ...CleanOpts) {
 	_ = m
 	runOnly := flag.Lookup("test.run").Value.String()
 	count, _ := strconv.Atoi(flag.Lookup("test.count").Value.String())
+	// The number of snapshots a test takes in one execution is its total divided by the
+	// times it was executed. This is not always -count: the runner stops repeating
+	// when no test matched -run or with -failfast.
 	registeredStandaloneTests := occurrences(
-		standaloneTestsRegistry.cleanup,
-		count,
+		perExecution(standaloneTestsRegistry.cleanup, standaloneTestsRegistry.executions, count),
+		1,
 		standaloneOccurrenceFMT,
 	)
+	registeredTests := make(map[string]map[string]int, len(testsRegistry.cleanup))
+	for snapPath, tests := range testsRegistry.cleanup {
+		registeredTests[snapPath] = perExecution(tests, testsRegistry.executions[snapPath], count)
+	}
 
 	obsoleteFiles, usedFiles := examineFiles(
-		testsRegistry.cleanup,
+		registeredTests,
 		registeredStandaloneTests,
 		runOnly,
 		shouldClean && !isCI,
 	)
 	obsoleteTests, err := examineSnaps(
-		testsRegistry.cleanup,
+		registeredTests,
 		usedFiles,
 		runOnly,
-		count,
+		1,
 		shouldClean && !isCI,
 		opt.Sort && !isCI,
 	)
@@ -415,6 +422,24 @@ func standaloneOccurrenceFMT(s string, i int) string {
 
 func snapshotOccurrenceFMT(s string, i int) string {
 	return fmt.Sprintf("%s - %d", s, i)
+}
+
+// perExecution divides the total number of snapshots of each test by the number of times
+// the test was executed, falling back to count when the executions are not known.
+func perExecution(total, executions map[string]int, count int) map[string]int {
+	result := make(map[string]int, len(total))
+	for testID, counter := range total {
+		n := executions[testID]
+		if n < 1 {
+			n = count
+		}
+		if n < 1 {
+			n = 1
+		}
+		result[testID] = counter / n
+	}
+
+	return result
 }
 
 // Builds a Set with all snapshot ids registered. It uses the provider formatter to build keys.
